@@ -254,6 +254,15 @@ func main() {
 		fs.Parse(args)
 		c := newEquivChecker(*verif, *repo, filepath.Join(*verif, "out", "equiv"))
 		defer c.close()
+		if len(keys) == 0 && c.base != nil {
+			// no function named: every declaration whose text differs from the snapshot
+			for k := range c.base.delta {
+				if _, ok := c.base.decls[k]; ok {
+					keys = append(keys, k)
+				}
+			}
+			sort.Slice(keys, func(i, j int) bool { return keys[i].String() < keys[j].String() })
+		}
 		c.prepare(keys)
 		for _, k := range keys {
 			r := c.check(k)
@@ -418,6 +427,31 @@ func runCheck(prop, repo, verif, tier, only string, updateBaseline, verbose, noE
 		timeout = 150 * time.Second
 	}
 	solveAll(x.obls, outDir, timeout, tier == "thorough", 8)
+	// Second chance: a few timeouts among many answers are what a loaded machine produces.
+	// They are decided again, two at a time, with three times the time, before anything is
+	// concluded from them (a query that genuinely stopped being provable still times out).
+	{
+		var again []*Obligation
+		for _, o := range x.obls {
+			if !o.expectSat && (o.res.status == "timeout") {
+				again = append(again, o)
+			}
+		}
+		if n := len(again); n > 0 && n <= 6 {
+			prev := map[*Obligation]int64{}
+			for _, o := range again {
+				prev[o] = o.res.ms
+			}
+			rt := 3 * timeout
+			if rt > 240*time.Second {
+				rt = 240 * time.Second
+			}
+			solveAll(again, filepath.Join(outDir, "retry"), rt, false, 2)
+			for _, o := range again {
+				o.res.ms += prev[o]
+			}
+		}
+	}
 
 	// group
 	groups := map[string]*groupResult{}
@@ -587,7 +621,7 @@ func runCheck(prop, repo, verif, tier, only string, updateBaseline, verbose, noE
 	carriedLine := func(name string, r *equivResult) string {
 		how := "equivalent to its verified predecessor on every path"
 		if r.Status == "bounded-equivalent" {
-			how = fmt.Sprintf("equivalent to its verified predecessor up to %d iterations per loop entry / %d nested activations (bounded, not counted as proved)", equivBound, equivRecursion)
+			how = fmt.Sprintf("equivalent to its verified predecessor up to %d iterations per entry of a data-dependent loop (bounded, not counted as proved)", r.Bound)
 		}
 		return fmt.Sprintf("carried over: %s: the proof no longer fits the changed code, the function is %s", name, how)
 	}
